@@ -278,10 +278,27 @@ func CheckC16(c *Ctx) (*Outcome, error) {
 		return nil, err
 	}
 	found = append(found, f3...)
-	nCrash := 12
+	nCrash, nEnum, nDrop := 12, 5, 8
 	if c.Tier == "thorough" {
-		nCrash = 90
+		nCrash, nEnum, nDrop = 90, 60, 60
 	}
+	fe, err := c.RunCases(nEnum, func(i int) ([]*History, error) {
+		rng := c.Rng("c16-corrupt-every-output", i)
+		hs := CorruptEveryOutput(rng, LayoutOpts{UserPkgs: true, Guarded: true, CustomTags: i%2 == 1}, 3)
+		c.Stats.Add("c16.prior_state_enumeration_histories", int64(len(hs)))
+		return hs, nil
+	}, JudgeC16, note)
+	if err != nil {
+		return nil, err
+	}
+	found = append(found, fe...)
+	fd, err := c.RunCases(nDrop, func(i int) ([]*History, error) {
+		return []*History{NameThenDrop(c.Rng("c16-name-then-drop", i))}, nil
+	}, JudgeC16, note)
+	if err != nil {
+		return nil, err
+	}
+	found = append(found, fd...)
 	fcs, err := c.RunCases(nCrash, func(i int) ([]*History, error) {
 		rng := c.Rng("c16-crash-shrink", i)
 		return []*History{CrashThenShrink(rng, i%6, []string{"crash-before", "crash-after", "crash-torn"}[(i/6)%3])}, nil
